@@ -48,9 +48,24 @@ class ScriptProc(Process):
                     ctx.cancel_timer("t%03d" % a[1])
 
     @staticmethod
+    def _poison(x):
+        """handlers are free to modify the message they received: scribble over every nested container.  Each delivery
+        must hand the process its own copy, so this can have no effect on later deliveries of an equal payload"""
+        if isinstance(x, list):
+            for y in x:
+                ScriptProc._poison(y)
+            x.append("poison")
+        elif isinstance(x, dict):
+            for y in list(x.values()):
+                ScriptProc._poison(y)
+            x["__poison"] = 1
+
+    @staticmethod
     def _msg_key(prefix, msg: Message):
         data = json.dumps(msg._data)
-        return prefix + list(msg.type.encode()) + [256] + list(data.encode())
+        key = prefix + list(msg.type.encode()) + [256] + list(data.encode())
+        ScriptProc._poison(msg._data)
+        return key
 
     def on_message(self, msg: Message, sender: str, ctx: Context):
         self._handle(self._msg_key([1, _num(sender)], msg), ctx)
